@@ -50,8 +50,6 @@ func (r *Router) parseParamRoute(route *Route) (first string) {
 		route.spath = path
 	}
 
-	// "." -> "\."
-	path = quotePointChar(path)
 	argPos := strings.IndexByte(path, '{')
 	optPos := strings.IndexByte(path, '[')
 	minPos := argPos
@@ -73,6 +71,9 @@ func (r *Router) parseParamRoute(route *Route) (first string) {
 			}
 		}
 	}
+
+	// "." -> "\.". Notice: must quote after collect the start string, it is plain text (not regex).
+	path = quotePointChar(path)
 
 	// has optional char. /blog[/{id}]  -> /blog(?:/{id})
 	if optPos > 0 {
